@@ -13,18 +13,20 @@ type Scenario func() (bodies []func(), check func(r *Result) string)
 
 // Stats summarises an exploration.
 type Stats struct {
-	Schedules      int            `json:"schedules"`
-	Points         int            `json:"points"`          // total choice points executed
-	MaxPoints      int            `json:"max_points"`      // longest execution
-	Bound          int            `json:"bound"`           // preemption bound explored (-1 = unbounded)
-	Complete       bool           `json:"complete"`        // the whole space within the bound was enumerated
-	WithPreemption int            `json:"with_preemption"` // schedules containing >=1 preemption
-	Contended      int            `json:"contended"`       // schedules in which some thread was blocked at some point
-	Outcomes       map[string]int `json:"outcomes"`        // distinct outcome strings reported by the scenario
-	Violation      string         `json:"violation,omitempty"`
-	ViolationRun   *Result        `json:"violation_run,omitempty"`
-	RaceLog        string         `json:"race_log,omitempty"`
-	Samples        [][]int        `json:"samples,omitempty"`
+	Schedules       int            `json:"schedules"`
+	Points          int            `json:"points"`          // total choice points executed
+	MaxPoints       int            `json:"max_points"`      // longest execution
+	Bound           int            `json:"bound"`           // preemption bound explored (-1 = unbounded)
+	Complete        bool           `json:"complete"`        // the whole space within the bound was enumerated
+	WithPreemption  int            `json:"with_preemption"` // schedules containing >=1 preemption
+	Contended       int            `json:"contended"`       // schedules in which some thread was blocked at some point
+	Outcomes        map[string]int `json:"outcomes"`        // distinct outcome strings reported by the scenario
+	Violation       string         `json:"violation,omitempty"`
+	ViolationRun    *Result        `json:"violation_run,omitempty"`
+	RaceLog         string         `json:"race_log,omitempty"`
+	Samples         [][]int        `json:"samples,omitempty"`
+	Diverged        int            `json:"diverged"`         // executions whose replayed prefix did not match (nondeterminism outside the scheduler)
+	SkippedSubtrees int            `json:"skipped_subtrees"` // prefixes that could not be reproduced in 12 attempts
 }
 
 // Explorer enumerates all schedules of a scenario with at most Bound preemptions.
@@ -41,6 +43,7 @@ type Explorer struct {
 	raceSize       int64
 	stop           bool
 	quiet          bool
+	diverged       bool
 }
 
 func (e *Explorer) raceGrew() (bool, string) {
@@ -70,14 +73,25 @@ func (e *Explorer) runOne(prefix []int, expect []Step) *Result {
 	if r.Points > e.stats.MaxPoints {
 		e.stats.MaxPoints = r.Points
 	}
-	// divergence while replaying a prefix is a hard error
+	// divergence while replaying a prefix: the program under test has a source of nondeterminism the scheduler does not
+	// own (Go map iteration order is the one that exists in updog). The execution that happened is still a real execution
+	// and is checked below; the caller retries to get the expected prefix.
+	e.diverged = r.BadChoice
+	if r.BadChoice {
+		e.stats.Diverged++
+	}
 	for i := range expect {
+		if e.diverged {
+			break
+		}
 		if i >= len(r.Steps) || i >= len(prefix) {
 			break
 		}
 		a, b := expect[i], r.Steps[i]
 		if a.Tid != b.Tid || a.Op != b.Op || a.Obj != b.Obj || !reflect.DeepEqual(a.Enabled, b.Enabled) {
-			harnessf("nondeterministic replay at step %d: expected %+v got %+v", i, a, b)
+			e.diverged = true
+			e.stats.Diverged++
+			break
 		}
 	}
 	np := 0
@@ -140,7 +154,15 @@ func (e *Explorer) explore(prefix []int, expect []Step, depth int) {
 	// the spine above the split is executed by every shard but counted only by shard 0
 	e.quiet = e.NShards > 1 && depth < SplitDepth && e.Shard != 0
 	r := e.runOne(prefix, expect)
+	for try := 0; e.diverged && !e.stop && try < 12; try++ {
+		r = e.runOne(prefix, expect)
+	}
 	e.quiet = false
+	if e.diverged && !e.stop {
+		e.stats.SkippedSubtrees++
+		e.stats.Complete = false
+		return
+	}
 	if e.stop {
 		return
 	}
@@ -190,7 +212,7 @@ func (e *Explorer) Explore() Stats {
 		bodies, _ = e.Scenario()
 		b := Run(nil, bodies)
 		if !reflect.DeepEqual(a.Steps, b.Steps) {
-			harnessf("determinism self-test failed: %+v vs %+v", a.Steps, b.Steps)
+			e.stats.Diverged++ // the program under test is not deterministic under a fixed schedule (see runOne)
 		}
 	}
 	// a race in the self-test executions is picked up by the first explored execution (log grew)
